@@ -56,14 +56,14 @@ CLAIMED = {
         'lock-step plain-list reference; band of splices at the default thresholds; load-factor differential of every depth-1 document edit',
         'All reachable block layouts under a token cap are enumerated for each small load factor and every API call is '
         'executed from every one of them against a plain list; this is the level at which split/merge/renumber bugs live.',
-        'Token texts abstracted to classes {x, newline}; stores up to cap tokens; thresholds re-derived from the tree\'s own formulas.',
+        'Token texts abstracted to classes {x, newline} with value equality; stores up to cap tokens; thresholds re-derived from the tree\'s own formulas.',
         '§4 C07'),
     'C08': (
         'explicit-state fixpoint BFS over the real TokenStore with newline-bearing/empty token classes and update transitions; '
         'document-level exhaustive token assignments and structural edits; oracle = positions recomputed from the text',
         'Every reachable (layout, cache) state under the cap x every splice/update; plus every token assignment and structural '
         'edit on every corpus document, with every token\'s (line, column, ordinal) compared against the printed text.',
-        'Token texts abstracted to 4 classes; <= 2 newline-bearing tokens per store in the store-level space.',
+        'Token texts abstracted to 8 classes (plain, newline, newline+text, empty, two newlines, same-length variant, form feed); <= 2 newline-bearing tokens per store in the store-level space.',
         '§4 C08'),
     'C09': (
         'exhaustive enumeration of (model, value property, value) with get-after-set / sibling-frame / re-parse oracles; explicit-state '
@@ -77,7 +77,7 @@ CLAIMED = {
         'view with every index/slice/step/key argument; lock-step Python list / first-match association list reference',
         'All interleavings of mutations through aliasing views are reachable as paths of the state graph; each transition is '
         'compared with list semantics on the projection, the complement order, and every view re-derived from the raw list.',
-        'List length capped at 2 (quick) / 3 (thorough); reverse() on node views is refused by design (a node cannot be in two places).',
+        'List length capped at 3 (quick: every mutation once from every initial list; thorough: BFS to depth 3); reverse() on node views is refused by design (a node cannot be in two places).',
         '§4 C10'),
     'C11': (
         'exhaustive enumeration: deepcopy of every model and token at every depth of every corpus document (both attribution modes, '
@@ -189,7 +189,7 @@ def main() -> None:
                               'implementation and a plain-Python reference model side by side',
         }],
         'checks': checks,
-        'notes': 'All checks are deterministic (VERIF_SEED is recorded only). Known findings: /verif/KNOWN_FINDINGS.txt.',
+        'notes': 'All checks are deterministic (VERIF_SEED is recorded only). Known findings: /verif/KNOWN_FINDINGS.txt. Seeded property-breaking changes and which check reports each: /verif/seeded/SUMMARY.md. As-built notes: DESIGN.md sections 10-12.',
         'not_applicable': [{'property_id': p, 'reason': PENDING_REASON} for p in props if p not in CLAIMED],
     }
     with open(os.path.join(VERIF, 'MANIFEST.json'), 'w') as f:
